@@ -33,7 +33,19 @@ TRet == /\ IsEv("ret") /\ LET p == pend[Ev.t] IN
            /\ (p.op \in {"Load", "Swap"} => Ev.r = p.r)
            /\ (p.op = "CompareAndSwap" => Ev.ok = p.ok)
         /\ pend' = [pend EXCEPT ![Ev.t] = Idle] /\ UNCHANGED val
-TNext == TReset \/ TInv \/ TRet \/ \E t \in Threads : TLin(t)
+\* Large workloads, necessary conditions of atomicity checked in one step:
+\* swapchain: goroutine g (1..threads) swapped in the tokens g*100000+1..ops; "Swap returns the value it replaced" =>
+\* the zero value and every token except the one left at the end are each returned exactly once
+Elems(q) == {q[i] : i \in 1..Len(q)}
+TSwapChain == /\ IsEv("swapchain") /\ UNCHANGED <<val, pend>>
+              /\ LET toks == {g * 100000 + i : g \in 1..Ev.threads, i \in 1..Ev.ops} IN
+                 /\ Len(Ev.rets) = Cardinality(toks)
+                 /\ Cardinality(Elems(Ev.rets)) = Len(Ev.rets)             \* no value replaced twice
+                 /\ Ev.final \in toks /\ Ev.final \notin Elems(Ev.rets)
+                 /\ Elems(Ev.rets) \cup {Ev.final} = toks \cup {0}          \* nothing lost, nothing invented
+\* casinc: "CompareAndSwap succeeds exactly when the current value equals old": increments are never lost
+TCasInc == IsEv("casinc") /\ UNCHANGED <<val, pend>> /\ Ev.final = Ev.start + Ev.succ
+TNext == TReset \/ TInv \/ TRet \/ TSwapChain \/ TCasInc \/ \E t \in Threads : TLin(t)
 TSpec == TInit /\ [][TNext]_vars
 Track == TrackL(l)
 Accepted == AcceptedP
